@@ -188,6 +188,23 @@ example :
     w.done = [((0, 1), [10])] ∧ dependents g2 0 [10] = [1] := by
   decide +kernel
 
+/-! The premise is needed: the source data of node 0 goes back to its first value, node 0 writes
+    content 6 again, whose digest is already in the store, so the value is not reported new,
+    node 1 is not re-run and the quiescent store differs from a from-scratch run.  Exactly the
+    `Novel` hypothesis of that write fails (the history is valid up to it). -/
+def ops3 : List WOp :=
+  ops2 ++ [ .poke 0 1 5, .sched (.organize [0] none [1]), .sched .dispatch,
+            .read 0 1 (fun _ => 0), .write 0 1 (fun _ => 6), .reply 0 1 11 ]
+
+example :
+    let w := runW g2 sem2.outs w2 ops3
+    w.s.que = [] ∧ w.s.inflight = [] ∧ w.dirty = [] ∧ w.done = [] ∧
+    w.store 10 1 = 6 ∧ w.store 11 1 = 21 ∧
+    scratch sem2.outs sem2.F w.source 1 [0, 1] (fun _ => 0) 11 = 13 ∧
+    ValidW g2 sem2 w2 (ops3.take 22) ∧ ¬ ValidW g2 sem2 w2 (ops3.take 23) ∧
+    novelB (sem2.outs 0) (runW g2 sem2.outs w2 (ops3.take 22)) 1 (fun _ => 6) = false := by
+  decide +kernel
+
 /-- a later report of an older run (3) does not move the pending node back from run 7 -/
 example :
     let s := organize g2 (St.init [1]) [1] (some 7) [1]
